@@ -176,6 +176,18 @@ def run_one(I: Interp, reg: Registry, ci: ContractInfo, f, known_excludes=()):
                 values.update(c.env.vars)
                 for name in [n for n in vars(ci.pycls) if n.startswith('cut_')]:
                     I.oblige('post', name[4:], I.truth(reg.call_clause(I, ci, name, values)))
+                # frame up to the cut point: nothing that existed before the call has been written on the way -- neither by the
+                # statements that were followed nor inside the loops that were over-approximated (syntactic ownership, see
+                # Interp.loop_heap_writes).  One obligation per path, so that it has an identity on the unchanged tree
+                bad = []
+                for (line, func, what, fresh, obj) in I.writes:
+                    if fresh:
+                        continue
+                    attr = what[1:] if what.startswith('.') else None
+                    if (id(obj), attr) in allowed or (id(obj), None) in allowed:
+                        continue
+                    bad.append(f'{what.strip()} at {func}:{line}')
+                I.oblige('frame', 'nothing-visible-written-before-the-cut', len(bad) == 0, note='; '.join(bad))
                 return 'cut'
         elif ci.kind == 'const':
             mod, expr = I.index.const_expr(ci.const)
@@ -856,7 +868,8 @@ def bounded_standin(ci: ContractInfo, n: int, rng):
     if getattr(ci.pycls, 'cut', None):
         # locals at a cut point cannot be observed natively: the stand-in is the document-level contract named in witness_via
         from .contract import REGISTRY
-        via = REGISTRY.get(getattr(ci.pycls, 'witness_via', '') or '')
+        wv = getattr(ci.pycls, 'witness_via', '') or ''
+        via = REGISTRY.get(wv if isinstance(wv, str) else wv[0])
         return bounded_standin(via, n, rng) if via is not None else (0, None)
     t_end = time.time() + (40.0 if n <= 2000 else 240.0)
     for _ in range(n):
